@@ -110,13 +110,18 @@ def corpus_leg(chk, prop):
         lines.append(A.case_line(f"k{i}", e["arch"], fm, root=e["root"], cwd="/w", search=search, dirs=sorted(dirs)))
     if not lines:
         return 0
-    impl, model = A.run_both(lines)
+    # guarded: a corpus program may make a changed implementation loop for ever
+    impl = C.run_guarded(C.AZH, lines, chunk=8, timeout=20)
+    model = C.run_guarded(C.AZMODEL, lines, chunk=8, timeout=60)
     for i, e in enumerate(corp):
         im = A.parse_impl(impl.get(f"k{i}"))
         mo = A.parse_model(model.get(f"k{i}"))
         chk.evaluations += 1
         chk.distinct.add(("corpus", e["seed"], e["arch"], e["root"]))
-        if im["kind"] in ("CRASH", "ABORT", "MISSING"):
+        if im["kind"] == "HANG":
+            chk.violation(f"corpus-hang:{e['seed']}", f"the assembler did not terminate on the demonstration program of seeded change {e['seed']} ({e['root']}, {e['arch']})",
+                          {"arch": e["arch"], "root": e["root"], "files": e["files"], "seed": e["seed"]})
+        elif im["kind"] in ("CRASH", "ABORT", "MISSING"):
             chk.violation(f"corpus-crash:{e['seed']}", f"the assembler crashed on the demonstration program of seeded change {e['seed']} ({e['root']}, {e['arch']}): {im.get('msg', '')[-160:]}",
                           {"arch": e["arch"], "root": e["root"], "files": e["files"], "seed": e["seed"]})
         elif not A.agree(im, mo):
